@@ -358,7 +358,10 @@ func main() {
 		"delta_alphabet":           "0,1,2,bound-cur,bound-cur+1,max-cur,max-cur+1,65535,65536,2^31,2^32-1",
 		"history_depth":            tier.Depth,
 		"state_key":                map[bool]string{false: "(pages, capacity)", true: "(pages, capacity, source of last successful grow)"}[tier.KeyLastSrc],
-		"huge_realloc_rule":        map[string]string{"quick": "Go-allocator reallocation to >=65535 pages only from the initial state of (min in {1,65535}, max absent) declarations with delta=bound-cur from host and fused-guest", "thorough": "from every initial state; from depth-1 states for max-absent declarations with delta=bound-cur"}[tier.Name],
+		"huge_realloc_rule": map[string]string{
+			"quick":    "Go-allocator reallocation to >=65535 pages: 2 transitions (compiler; min=1, max absent; local limit=65535 by the fused guest function, imported limit=65536 by the host); resulting states are leaves",
+			"thorough": "from every initial state straight to the bound by the host and the fused guest function; for (min=1, max absent) declarations by every source and the resulting states are expanded; elsewhere resulting states are leaves",
+		}[tier.Name],
 		"per_class":                perClass,
 		"wall_children_s":          float64(int(time.Since(t0).Seconds()*10)) / 10,
 	}
